@@ -23,8 +23,11 @@ class SyncProp(Prop):
 
     def gen(self, r, i, run):
         cfg = projgen.gen_project(random.Random(r.randrange(1 << 30)), multi=True)
-        cfg["ir"]["returns"] = None
+        # a return entry (type and prose, no default) in 30% of the projects; stale targets never have one
+        if not (cfg["ir"].get("returns") and r.random() < 0.6):
+            cfg["ir"]["returns"] = None
         cfg["stale_ir"]["returns"] = None
+        run.dist["truth_has_return_entry"][cfg["ir"]["returns"] is not None] += 1
         for k, kd in cfg["kinds"].items():
             for f in kd["files"]:
                 run.dist["prestate"]["%s:%s%s" % (k, f["prestate"], ":method" if kd["method"] else "")] += 1
@@ -257,7 +260,8 @@ class C11(SyncProp):
                 if f["content"] and f["prestate"] in ("stale", "near", "agreeing", "absent") and r.random() < 0.7:
                     rr = random.Random(r.randrange(1 << 30))
                     long_doc = 'def load(path):\n    """\n    Load it.\n\n    %s"""\n    return path\n' % ("w" * rr.randint(96, 112))
-                    before = "".join(rr.choice(projgen.OTHER_SRC + ["X: int = 3\n", "class Other(object):\n    def method_name(self, a=1):\n        return a\n"]) for _ in range(rr.randint(0, 2)))
+                    shadow = ["class %s(object):\n    attr: int = 1\n" % kd["name"].split(".")[-1]] if k == "class" and "." in kd["name"] else []
+                    before = "".join(rr.choice(projgen.OTHER_SRC + shadow + shadow + ["X: int = 3\n", "PAGE_BREAK = '\x0c'\n", "class Other(object):\n    def method_name(self, a=1):\n        return a\n"]) for _ in range(rr.randint(0, 2)))
                     simple = kd["name"].split(".")[0]
                     after = "".join(rr.choice(projgen.OTHER_SRC[1:] + ["def later(value, a=2):\n    return value\n", long_doc] + (["%s = register(%s)\n" % (simple, simple)] if k == "class" and f["prestate"] in ("stale", "near", "agreeing") else [])) for _ in range(rr.randint(0, 2)))
                     nl = "" if f["content"].endswith("\n") else "\n"
